@@ -68,6 +68,7 @@ type listRun[T any] struct {
 	reSet       int // Set of a NEW element whose value equals the one it replaces
 	skippedFull int
 	maxLen      int
+	bigPeeks    int // bigPeek ops (seqbig.go)
 }
 
 func (r *listRun[T]) vals() []int {
@@ -393,7 +394,7 @@ func (r *listRun[T]) cursorOp(op Op) string {
 		r.insertAt(r.pos(c), v)
 		c.real.Push(r.b.in(v))
 	case "add":
-		k := a % 4 // 0..3 values; Add() with no values inserts nothing
+		k := a % 4    // 0..3 values; Add() with no values inserts nothing
 		if a >= 180 { // one call with dozens of values (variadic arity around 16/32/64)
 			k = []int{15, 16, 17, 31, 32, 33, 40, 64, 65}[a%9]
 		}
@@ -510,6 +511,8 @@ func (r *listRun[T]) apply(op Op) string {
 	case "clear":
 		r.clear()
 		return ""
+	case "bigPeek":
+		return r.bigPeek(a, abs(op.B), abs(op.C))
 	case "peek":
 		if a >= 190 { // offsets at the end of the int range
 			ext := []int{math.MaxInt, math.MaxInt - 1, math.MaxInt - n, 1 << 31, 1 << 32}
@@ -648,6 +651,7 @@ func runListOf[T any](c ListCase, o *vk.Obs, b *bound[T]) string {
 	o.ClassIf(r.sharedEdit > 0, "edit_where_another_cursor_shares_the_location")
 	o.ClassIf(r.downstream > 0, "edit_upstream_of_a_cursor_that_stays_valid")
 	o.ClassIf(r.maxLen >= 16, "len>=16")
+	o.ClassIf(r.bigPeeks > 0, "big_container_Peek_probes")
 	o.ClassIf(r.skippedFull > 0, "insert_skipped_at_len_64")
 	return ""
 }
